@@ -535,16 +535,18 @@ func (k Keeper) getSelfConsensusState(ctx sdk.Context, height clienttypes.Height
 // StopAndPrepareForConsumerRemoval sets the phase of the chain to stopped and prepares to get the state of the
 // chain removed after unbonding period elapses
 func (k Keeper) StopAndPrepareForConsumerRemoval(ctx sdk.Context, consumerId string) error {
-	// The phase of the chain is immediately set to stopped, albeit its state is removed later (see below).
-	// Setting the phase here helps in not considering this chain when we look at launched chains (e.g., in `QueueVSCPackets)
-	k.SetConsumerPhase(ctx, consumerId, types.CONSUMER_PHASE_STOPPED)
-
-	// state of this chain is removed once UnbondingPeriod elapses
+	// state of this chain is removed once UnbondingPeriod elapses;
+	// note that this is done before changing any state so that the chain is not stopped
+	// without being scheduled for removal in case the unbonding period cannot be retrieved
 	unbondingPeriod, err := k.stakingKeeper.UnbondingTime(ctx)
 	if err != nil {
 		return err
 	}
 	removalTime := ctx.BlockTime().Add(unbondingPeriod)
+
+	// The phase of the chain is immediately set to stopped, albeit its state is removed later (see below).
+	// Setting the phase here helps in not considering this chain when we look at launched chains (e.g., in `QueueVSCPackets)
+	k.SetConsumerPhase(ctx, consumerId, types.CONSUMER_PHASE_STOPPED)
 
 	if err := k.SetConsumerRemovalTime(ctx, consumerId, removalTime); err != nil {
 		return fmt.Errorf("cannot set removal time (%s): %s", removalTime.String(), err.Error())
